@@ -311,7 +311,7 @@ def show_val(v):
 CELLS_TOKEN = "\x01CELLS\x01"
 
 
-def fields_rule(ctx, facts, rid):
+def fields_rule(ctx, facts, rid, thorough=False):
     r = ctx.rule(rid, "for every side to move, every castling-rights value and every en-passant mark on the rank appropriate to that side (and "
                       "none): Display for RawBoard writes `<placement> <w|b> <KQkq subset|-> <square|-> <halfmove> <fullmove>` with the letters "
                       "the rules give them, and FromStr, fed that text, rebuilds the same side, rights, mark and counters (placement by F3/F4)")
@@ -357,7 +357,11 @@ def fields_rule(ctx, facts, rid):
             for ep in [None] + [8 * src_rank + f for f in range(8)]:
                 combos.append((side, cr, ep, 7, 42))
     # the two counters: extreme and boundary values on a few field combinations
-    for mc, mn in ((0, 0), (0, 1), (1, 0), (99, 1), (100, 65535), (65535, 65535), (150, 2)):
+    pairs = [(0, 0), (0, 1), (1, 0), (99, 1), (100, 65535), (65535, 65535), (150, 2)]
+    if thorough:
+        vals = list(range(0, 12)) + [98, 99, 100, 101, 149, 150, 151, 255, 256, 999, 1000, 9999, 10000, 65534, 65535]
+        pairs = [(a, b) for a in vals for b in vals]
+    for mc, mn in pairs:
         for side, cr, ep in ((0, 0, None), (1, 15, 34), (0, 9, 24)):
             combos.append((side, cr, ep, mc, mn))
     if True:
